@@ -515,6 +515,13 @@ func C12Configs(thorough bool) []*world.Config {
 		// a half-processed object behind in it (capacity 1 and 2: loads still happen, hits interleave)
 		world.UintCfg(2, urange(1, 5), 1, B, "tiny1"),
 		world.UintCfg(2, urange(1, 5), 1, M, "tiny2"),
+		// the same with failing comparisons and failing marshal calls: whatever a failed load leaves in the
+		// cache (its verdict on a node it could not check, say) is seen by the retry and by everything after it
+		cc(world.UintCfg(2, urange(1, 5), 1, B, "tiny1")),
+		cc(world.UintCfg(2, urange(1, 4), 1, M, "tiny2")),
+		cc(world.UintCfg(4, urange(1, 6), 1, B, "tiny1")),
+		world.StructCfg(2, []uint8{0, 1, 0, 2}, B, "tiny1"),
+		world.StructCfg(2, []uint8{0, 0, 1, 0}, M, "tiny2"),
 	}
 	if thorough {
 		cs = append(cs, world.UintCfg(2, urange(1, 6), 1, B, "none"), world.UintCfg(2, urange(0, 8), 1, M, "none"), world.UintCfg(3, ulist(1, 2, 3, 4, 6, 9), 1, B, "none"),
